@@ -18,6 +18,7 @@ RULE = ('(a) IR-level store/load histories through eval_instr/eval_expr: stores 
         'repe/repne cmps/scas with concrete ecx in {0,1,2,5} and both directions. After each history every register and every (offset 0..11, width 8/16/32) '
         'read-back is compared on 4 valuations. A case = the history; non-trivial = it contains a read overlapping an earlier write of another width or offset '
         '(a), or a memory access / a rep prefix (b, c).')
+RULE += ' Round 6: sequences that cut one value into many windows: push/popf/setcc, pushf/pop, sahf, lahf on loaded flag images; bytes and words of one register or dword combined with each other.'
 ASSUMPTIONS = ['irsem is the meaning of the IR; memory is flat (segment annotations do not take part in addresses)',
                'valuations keep distinct symbolic bases >= 1 MiB apart and away from constant addresses (no aliasing outside the statement)',
                'results under uninterpreted operators or architecturally undefined values are not compared']
